@@ -225,6 +225,13 @@ static NS void check_history(void)
 		for (int j = 0; j < nhist; j++) {
 			struct lin_op *b = &hist[j];
 			long q = a->a;
+			/* an enqueue issued on the OTHER queue is in flight on this one too if a splice moved its half-linked node here */
+			if (wb && i != j && b->type == L_INS && b->a != q && b->thr != a->thr && (overlaps(a, b) || inflight_during(j, a))) {
+				for (int k = 0; k < nhist; k++) {
+					struct lin_op *sp = &hist[k];
+					if (sp->type == L_SPL_DRAIN && sp->a == b->a && sp->b == q && (sp->r == CDS_WFCQ_RET_DEST_EMPTY || sp->r == CDS_WFCQ_RET_DEST_NON_EMPTY) && sp->ret >= b->call && sp->call <= a->ret) inflight = 1;
+				}
+			}
 			if (i == j || b->type == L_SPL_APPEND || b->thr == a->thr || !touches(b, q)) continue;
 			if (!overlaps(a, b)) {
 				if (wb && inflight_during(j, a) && (b->type == L_INS || (b->type == L_SPL_DRAIN && b->b == q))) inflight = 1;
@@ -323,7 +330,7 @@ static NS void solo_end(const char *what, long r)
 	if (r == R_WOULDBLOCK) {
 		/* allowed only while an operation of a (suspended) thread on that container is in flight; all store buffers were drained at the freeze */
 		int inflight = 0;
-		for (int i = 0; i < nhist; i++) if (hist[i].ret == ~0ul && hist[i].thr != me && touches(&hist[i], solo_q)) inflight = 1;
+		for (int i = 0; i < nhist; i++) if (hist[i].ret == ~0ul && hist[i].thr != me && (touches(&hist[i], solo_q) || (kind == K_WFCQ && hist[i].type == L_INS))) inflight = 1;	/* a splice may have moved a half-linked node between the queues */
 		if (!inflight) ds_fail("progress: %s on container %ld returned WOULDBLOCK although no other operation on it is in progress (all other threads are suspended between operations)", what, solo_q);
 		ds_flag(CF_WOULDBLOCK);
 	}
